@@ -95,9 +95,12 @@ def run(chk):
             chk.violation("C17|subsample|not-refused", f"subsample({counts}, {total + 1}) returned a result for n > total",
                           {"counts": counts, "n": total + 1})
     # ---- uniformity (statistical; fixed false-alarm probability 1e-9)
-    for counts, n in [([3, 1, 2, 4], 4), ([1] * 8, 3), ([5, 5], 7)]:
+    # (the last two: SPARSE draws - one or two items out of hundreds - where the item in the last position must be kept as often as any)
+    for counts, n in [([3, 1, 2, 4], 4), ([1] * 8, 3), ([5, 5], 7), ([150, 150, 1], 1), ([100, 100, 1], 2)]:
         T = sum(counts)
         R = 4000 if not thorough else 40000
+        if T > 100:
+            R = 40000
         # per-category expected kept fraction n/T for every item: category i keeps counts[i]*n/T on average
         kept = np.zeros(len(counts))
         np.random.seed((seed0 + 999) % (2 ** 32))
@@ -188,7 +191,7 @@ def run(chk):
                                   f"{len(v)} values, min {v.min() if len(v) else None}", {"size": size, "xmin": xmin, "alpha": alpha})
     # ---- MLE closed forms and the 'exact' maximiser
     # (every run: steep samples whose maximiser lies high inside the default bounds, and samples starting below cmin)
-    forced_mle = [(1, 1, 3.6), (1, 1, 4.0), (1, 2, 2.5), (1, 3, 2.2), (2, 2, 3.8), (1, 1, 2.0)]
+    forced_mle = [(1, 1, 3.6), (1, 1, 4.0), (1, 2, 2.5), (1, 3, 2.2), (2, 2, 3.8), (1, 1, 2.0), (0, 200000, 2.5), (0, 1000000, 2.2)]
     for it_m in range(len(forced_mle) + (20 if not thorough else 200)):
         cmin = rng.choice([1, 2, 3])
         if it_m < len(forced_mle):
@@ -196,6 +199,9 @@ def run(chk):
             np.random.seed((seed0 + k) % (2 ** 32))
             k += 1
             c = [int(x) for x in st.powerlaw_sample(size=400, xmin=x0, alpha=al_)] + [cmin + 1]
+            if x0 == 0:
+                # a LARGE threshold with many counts just below it (cmin - 1, cmin - 2): ">= cmin" is an exact comparison
+                c = [cmin * int(x) + rng.randint(0, 999) for x in st.powerlaw_sample(size=300, xmin=1, alpha=al_)] + [cmin - 1] * 40 + [cmin - 2] * 10 + [cmin + 1]
         elif rng.random() < 0.5:
             c = [rng.randint(1, 60) for _ in range(rng.randint(5, 60))] + [cmin + 1, cmin + 4]
         else:
